@@ -37,9 +37,10 @@ def key_kind(key: str) -> str:
 
 
 # ------------------------------------------------------------------------------------------------ parsing
+WS = r"[ \t\f\r\n]"  # lark's common.WS - not Python's Unicode-aware \s
 TOKEN_RE = re.compile(
-    r"\s*(?:(?P<time>\[\s*UB[123]\s*\])|(?P<pkg>\[\s*[0-9]+P\s*(?:[0-9]+\.\.[1-9][0-9]*)?\s*\])|(?P<key>\[\s*[0-9]+\s*\])"
-    r"|(?P<op>[UuOoXx∧∨⊻])|(?P<lp>\()|(?P<rp>\)))"
+    (r"\s*(?:(?P<time>\[\s*UB[123]\s*\])|(?P<pkg>\[\s*[0-9]+P\s*(?:[0-9]+\.\.[1-9][0-9]*)?\s*\])|(?P<key>\[\s*[0-9]+\s*\])"
+     r"|(?P<op>[UuOoXx∧∨⊻])|(?P<lp>\()|(?P<rp>\)))").replace(r"\s", WS)
 )
 OPCLASS = {"U": "and", "u": "and", "∧": "and", "O": "or", "o": "or", "∨": "or", "X": "xor", "x": "xor", "⊻": "xor"}
 
@@ -47,15 +48,15 @@ OPCLASS = {"U": "and", "u": "and", "∧": "and", "O": "or", "o": "or", "∨": "o
 def tokenize(text: str) -> List[Tuple[str, str]]:
     pos = 0
     out: List[Tuple[str, str]] = []
-    text = text.rstrip()
-    if not text.strip():
+    text = text.rstrip(" \t\f\r\n")
+    if not text.strip(" \t\f\r\n"):
         raise RefSyntaxError("empty", "eof")
     while pos < len(text):
         m = TOKEN_RE.match(text, pos)
         if not m or m.end() == pos:
             raise RefSyntaxError(f"bad character at {pos}: {text[pos:pos + 5]!r}")
         kind = m.lastgroup
-        out.append((kind, re.sub(r"\s+", "", m.group(kind))))
+        out.append((kind, re.sub(WS + "+", "", m.group(kind))))
         pos = m.end()
     return out
 
